@@ -354,6 +354,7 @@ func run(op string) (string, string) {
 	}()
 
 	tags := map[string]bool{}
+	flooded := 0
 	w.mu.Lock()
 	// Initiate of state 0 must have been entered before anything is scripted
 	ok := w.waitFor(func() bool { return len(w.log) > 0 || w.closed }) && w.waitFor(func() bool { return w.quiescent(st0) })
@@ -393,7 +394,8 @@ func run(op string) (string, string) {
 			deliver(e)
 		case 'F': // a repeating sender: cnt copies, each delivered to a quiescent machine
 			ok = w.waitFor(func() bool { return w.quiescent(st0) })
-			if e.cnt >= 256 {
+			flooded += e.cnt
+			if flooded >= 256 {
 				tags["flood"] = true
 			}
 			for i := 0; ok && i < e.cnt; i++ {
@@ -650,7 +652,7 @@ func gen(r *hx.Rng, n int, tier string) []string {
 			}
 			ss = append(ss, s)
 		}
-		if r.Chance(1, 25) {
+		if r.Chance(1, 15) {
 			ops = append(ops, genFlood(r))
 			continue
 		}
